@@ -131,6 +131,22 @@ def parallel_map(func, items, jobs: int | None = None, min_items: int = 8):
     return out
 
 
+def key_signature(key: str) -> str:
+    """rule|module|function|construct with argument lists and receivers dropped:
+    `_arguments_as(fst_, fst.FST.get_option('args_as', options)) @after-mutation` -> `_arguments_as @after-mutation`."""
+    import re
+    parts = key.split('|', 3)
+    if len(parts) < 4:
+        return key
+    c = parts[3]
+    prev = None
+    while prev != c:
+        prev = c
+        c = re.sub(r'\([^()]*\)', '', c)
+    c = re.sub(r'\b\w+\.', '', c)
+    return '|'.join(parts[:3] + [' '.join(c.split())])
+
+
 def load_known() -> dict:
     if not os.path.exists(KNOWN_FILE):
         return {'findings': [], 'fixed': []}
@@ -177,10 +193,16 @@ def run_property(prop: str, rule_module, tier: str = 'quick', repo: Repo | None 
 
     known = load_known()
     known_keys = {k['key']: k for k in known.get('findings', []) if k.get('property') == prop}
-    new = [f for f in ctx.findings if f.key not in known_keys]
-    old = [f for f in ctx.findings if f.key in known_keys]
+    # a listed finding is the construct (rule, function, what is called / done), not the spelling of its locals: a rename in /repo must
+    # not turn a recorded finding into a "new" violation
+    known_sigs = {key_signature(k): v for k, v in known_keys.items()}
+
+    def listed(f):
+        return known_keys.get(f.key) or known_sigs.get(key_signature(f.key))
+    new = [f for f in ctx.findings if not listed(f)]
+    old = [f for f in ctx.findings if listed(f)]
     for f in old:
-        out(f'KNOWN-FINDING: property={prop} {known_keys[f.key].get("what", "")} :: {f.text()}')
+        out(f'KNOWN-FINDING: property={prop} {listed(f).get("what", "")} :: {f.text()}')
     code = 0
     replay = ''
     stale = os.path.join(REPLAY_DIR, f'{prop}.findings.json')
